@@ -169,4 +169,32 @@ def polyScaleErrOf : Except PolyScaleErr (List Row) → Option PolyScaleErr
   | .error e => some e
   | .ok _ => none
 
+/-! ## `TrackingComposite`: all three entry points and the log accessors (tracking.py) -/
+
+/-- the `inpt` dict of the `tracking` decorator: the positional arguments under the names of the wrapped method -/
+inductive TrackedInput where
+  | bqm (m : Bqm)
+  | ising (h : List (Label × Rat)) (J : List (Label × Label × Rat))
+  | qubo (lin : List (Label × Rat)) (quad : List (Label × Label × Rat))
+
+/-- the two lists `_inputs` / `_outputs` (always appended together, so one list of pairs) -/
+abbrev TrackLog := List (TrackedInput × List Row)
+
+/-- `TrackingComposite.sample / sample_ising / sample_qubo` as coded: `self.child.<same method>(…)` — for a child class that
+    implements only one of the three methods (`impl`, `child`) that is the mixin conversion — and the log extended by this
+    input and this output.  (`copy=True` stores deep copies: values here, so both settings are this function.) -/
+def trackingCall (impl : Impl) (child : Bqm → List Row) (log : TrackLog) (inp : TrackedInput) : List Row × TrackLog :=
+  let out := match inp with
+    | .bqm m => mixinSample impl child m
+    | .ising h J => mixinIsing impl child h J
+    | .qubo lin quad => mixinQubo impl child lin quad
+  (out, log ++ [(inp, out)])
+
+/-- `TrackingComposite.output` / `.input`: the most recent entry, `ValueError` (none) on an empty log -/
+def trackingOutput (log : TrackLog) : Option (List Row) := log.getLast?.map (·.2)
+def trackingInput (log : TrackLog) : Option TrackedInput := log.getLast?.map (·.1)
+
+/-- `TrackingComposite.clear` -/
+def trackingClear (_log : TrackLog) : TrackLog := []
+
 end Enum
